@@ -7,6 +7,7 @@ import (
 	"fmt"
 	"sort"
 	"sync/atomic"
+	"time"
 
 	"github.com/Tom-Johnston/mamba/graph"
 	"github.com/Tom-Johnston/mamba/sortints"
@@ -744,6 +745,59 @@ func evalDecoderOutputBig(g *EG) *Failure {
 	return nil
 }
 
+// evalDecoderStrings: the first string of the batch whose decoded graph is not well formed.
+func evalDecoderStrings(b decBatch) *Failure {
+	var f *Failure
+	b.each(func(s []byte) {
+		if f != nil {
+			return
+		}
+		n, declared := declaredN(b.Decoder, string(s))
+		if !declared || n > 256 {
+			return
+		}
+		var g graph.Graph
+		var err error
+		_, p := try(func() {
+			if b.Decoder == "graph6" {
+				var d *graph.DenseGraph
+				d, err = graph.Graph6Decode(string(s))
+				g = d
+			} else {
+				var d *graph.SparseGraph
+				d, err = graph.Sparse6Decode(string(s))
+				g = d
+			}
+		})
+		if p || err != nil {
+			return // C08 decides about panics; an error is a legitimate answer
+		}
+		fn := map[string]string{"graph6": "Graph6Decode", "sparse6": "Sparse6Decode"}[b.Decoder]
+		if w := selfConsistentBig(g); w != "" {
+			f = &Failure{Class: "construct/" + fn + "/malformed-graph-from-accepted-string", What: fmt.Sprintf("%s(%q) is accepted and returns a malformed graph: %s", fn, clip(string(s)), w), Kind: "decoder-strings-batch", Replay: decBatch{Decoder: b.Decoder, Strs: [][]byte{s}}}
+			return
+		}
+		if nb := unsortedNeighbours(g); nb != "" {
+			f = &Failure{Class: "construct/" + fn + "/malformed-graph-from-accepted-string", What: fmt.Sprintf("%s(%q): %s", fn, clip(string(s)), nb), Kind: "decoder-strings-batch", Replay: decBatch{Decoder: b.Decoder, Strs: [][]byte{s}}}
+		}
+	})
+	return f
+}
+
+// unsortedNeighbours reports a neighbour list that is not strictly ascending or disagrees with IsEdge.
+func unsortedNeighbours(g graph.Graph) string {
+	n := g.N()
+	for v := 0; v < n; v++ {
+		nb := g.Neighbours(v)
+		for i, u := range nb {
+			if u < 0 || u >= n || u == v || (i > 0 && nb[i-1] >= u) || !g.IsEdge(v, u) {
+				return fmt.Sprintf("Neighbours(%d) = %v is not a strictly ascending list of neighbours", v, nb)
+			}
+		}
+	}
+	return ""
+}
+
 func evalPruferOutput(cc consCase) *Failure {
 	var g *graph.DenseGraph
 	mk := func(cl, what string) *Failure {
@@ -1069,6 +1123,25 @@ func runC06(c *Ctx) {
 		c.SetCount("cases_on_all_graphs_with_6_vertices", n6)
 		c.Rule += "; THOROUGH: additionally every labelled graph with 6 vertices (transformations, every pair for SplitEdge/Contract, all 1957 view sequences, decoder outputs), NewDense byte slices for n=5, Pruefer codes for n<=8, view histories for n=5"
 	}
+	// decoder outputs on strings that are not the reference encoding of anything in particular: every string of the
+	// families C08 enumerates (all short strings over a reduced alphabet, single edits of valid encodings). Whatever
+	// the decoders accept must be a well-formed graph. Evaluated in isolated workers; a crash or hang there is C08's
+	// verdict, not this check's.
+	for _, dec := range []string{"graph6", "sparse6"} {
+		strs := c08Strings(dec, false)
+		var batches []interface{}
+		for i := 0; i < len(strs); i += 4000 {
+			j := i + 4000
+			if j > len(strs) {
+				j = len(strs)
+			}
+			batches = append(batches, decBatch{Decoder: dec, Strs: strs[i:j]})
+		}
+		c.RunIsolatedEx("decoder-strings-batch", batches, 180*time.Second, func(i int, timedOut bool, stderr string) *Failure { return nil }, func(i int, f *Failure) {
+			c.Fail(f)
+		})
+		c.SetCount("decoder_output_strings_"+dec, int64(len(strs)))
+	}
 	c06Large(c)
 	// views stay live: query, edit the underlying graph, query again
 	var vcs []viewCase
@@ -1127,6 +1200,12 @@ func replayC06(kind string, raw json.RawMessage) *Failure {
 		return evalDecoderOutput(cc)
 	case "prufer-output":
 		return evalPruferOutput(cc)
+	case "decoder-strings-batch":
+		var b decBatch
+		if err := json.Unmarshal(raw, &b); err != nil {
+			return &Failure{Class: "replay/bad-file", What: err.Error()}
+		}
+		return evalDecoderStrings(b)
 	case "transform-large":
 		var lc c06LargeCase
 		if err := json.Unmarshal(raw, &lc); err != nil {
